@@ -94,8 +94,8 @@ def lemmas(idx):
                 elif name in ('angle_between', 'angle_to') and same and acos_fid(cfg, k) is not None:
                     cosv = '(%s / k_un FSqrt (%s * %s))%%K' % (dot(A, Bv), dot(A, A), dot(Bv, Bv)); ac = '(k_un FAcos %s)' % cosv
                     tblx = '(override tbl %d%%positive (stub1 %s FAcos))' % (acos_fid(cfg, k), 'K32' if k == 'f32' else 'K64')
-                    if name == 'angle_between' or d != 2: add(cfg, f, vs, args, None, [ac], '%s = acos((a.b) / sqrt((a.a)(b.b))) with acos_approx abstracted to the arccos primitive' % name, tactic='alg_congr', scalar_k=k, tblx=tblx)
-                    else: add(cfg, f, vs, args, None, ['(%s * k_un FSignum (%s * %s - %s * %s))%%K' % (ac, A[0], Bv[1], A[1], Bv[0])], 'angle_to = acos(cos) * signum(perp_dot) with acos_approx abstracted', tactic='alg_congr', scalar_k=k, tblx=tblx)
+                    if d != 2: add(cfg, f, vs, args, None, [ac], '%s = acos((a.b) / sqrt((a.a)(b.b))) with acos_approx abstracted to the arccos primitive' % name, tactic='alg_congr', scalar_k=k, tblx=tblx)
+                    else: add(cfg, f, vs, args, None, ['(%s * k_un FSignum (%s * %s - %s * %s))%%K' % (ac, A[0], Bv[1], A[1], Bv[0])], '%s (2D) = acos(cos) * signum(perp_dot) with acos_approx abstracted' % name, tactic='alg_congr', scalar_k=k, tblx=tblx)
             except SymErr: continue
     files = {}; nfiles = max(1, (len(order) + 7) // 8)
     for i, lem in enumerate(order): files.setdefault('Geo_%03d' % (i % nfiles), []).append(lem)
